@@ -225,3 +225,12 @@ func shapedDocIDs(r *rand.Rand, b uint32) []uint32 {
 		return out
 	}
 }
+
+// Pairs writes a length-prefixed list of (id, score-bits) pairs.
+func (c *Case) Pairs(ps [][2]uint64) *Case {
+	c.N(len(ps))
+	for _, p := range ps {
+		c.U(p[0]).U(p[1])
+	}
+	return c
+}
